@@ -10,7 +10,7 @@ DISTINCT_RULE = (
     "cases = seeded markets with 1-2 removals (factor None/0/<2.5/2.5/large, pre-play and in-play, same selection and factor in two markets of one run, "
     "sequential and event-grouped, WIN/PLACE/OTHER_PLACE/EACH_WAY) x orders in every state; distinct = (market type, factor class, order type, order status at removal)"
 )
-RULES = ["void", "reduction", "stable"]
+RULES = ["void", "reduction", "stable", "average"]
 MINIMA = {"quick": {"rule_void": 3000, "rule_reduction": 1500, "removals_in_files": 1200}, "thorough": {"rule_reduction": 50000}}
 ASSUMPTIONS = ["removals and factors are read from the raw file lines", "simulated_full_match is not used here (its fragments bypass the fragment hook)"]
 FACTORS = (None, 0, 1.3, 2.4, 2.5, 2.51, 12.0, 30.0, 64.0, 99.0)
@@ -18,7 +18,7 @@ FACTORS = (None, 0, 1.3, 2.4, 2.5, 2.51, 12.0, 30.0, 64.0, 99.0)
 
 def plan(tier, seed):
     n = 6000 if tier == "quick" else 60000
-    kinds = ["single", "single", "inplay", "two_markets_seq", "two_markets_event", "no_factors", "single"]
+    kinds = ["single", "single", "inplay", "two_markets_seq", "two_markets_event", "no_factors", "single", "reopen_after_close"]
     return [{"seed": seed, "idx": i, "kind": kinds[i % len(kinds)]} for i in range(n)]
 
 
@@ -64,6 +64,10 @@ def _one_market(rng, mid, kind, sels=None, t0=G.T0, factor=None, victim_i=None, 
         for _ in range(rng.randint(0, 3)):
             d.open_tick()
     d.close()
+    if kind == "reopen_after_close":
+        # the market is re-opened after CLOSED (removed runners stay removed) and closes again: still exactly one reduction
+        d.reopen_after_close()
+        d.close()
     return d.mf
 
 
